@@ -29,6 +29,7 @@ const c15Port = "6379"
 type c15World struct {
 	tlsOnly bool   // the plain port is disabled
 	inCall  string // the lifecycle call the harness thread is inside ("" between calls)
+	waiting string // the harness thread waits for the reply to a PING of an idle connection (step w)
 	tls     bool
 	kit     *tlsKit
 	prog    string
@@ -171,7 +172,9 @@ func (w *c15World) body() {
 				if c.stopsSeen != w.stops || c.cl.Raw().PeerClosed() || c.cl.Raw().ClosedLocally() {
 					continue
 				}
+				w.waiting = fmt.Sprintf("%s: idle connection #%d, connected an hour ago, sent PING", pos, n)
 				r := c.cl.Do("PING")
+				w.waiting = ""
 				if r.Status != "ok" || string(r.Reply.Data) != "PONG" {
 					w.fail("not-serving:idle-connection-ping-"+r.Status, fmt.Sprintf("%s: idle connection #%d, connected an hour ago, sent PING and got %s although Stop was not called", pos, n, r.String()))
 				}
@@ -246,6 +249,11 @@ func (w *c15World) connect(overTLS bool) (*sched.Client, sched.Outcome) {
 }
 
 func (w *c15World) atQuiet(e *vrt.Exec) {
+	if w.waiting != "" {
+		// a TLS client reads through crypto/tls and parks for good when no reply comes
+		w.fail("not-serving:idle-connection-unanswered", w.waiting+" and never got a reply although Stop was not called")
+		return
+	}
 	if w.inCall != "" {
 		parked := ""
 		for _, t := range e.ThreadStates() {
